@@ -90,7 +90,13 @@ TNext == /\ Is("next") /\ live
                 /\ (CHECK_NONNEG /\ subj \in {"LinearVolatility", "StDev", "MeanAbsDev", "MedianAbsDev", "TR"} /\ IsNum(E.y)) => Fx(E.y).s >= 0
                 \* HeikinAshi outputs a valid candle whenever its input is valid (C17)
                 /\ (subj = "HeikinAshi" /\ ValidC(x)) => ValidC(Cndl(E.y))
-                /\ H' = h2 /\ R' = q.st /\ M' = m2
+                \* Vidya is a recurrence: on a step whose smoothing factor is not determined (up + dn within rounding of 0: the
+                \* code divides rounding residues, see Accept) the output is exempt, and the recurrence continues from the value
+                \* the implementation actually produced
+                /\ R' = IF subj = "Vidya" /\ q.exp.kind = "vidya" /\ IsNum(E.y)
+                            /\ ~(FxIsZero(q.exp.tot) \/ FxGt(q.exp.tot, FxMulInt(q.exp.atot, 8)))
+                         THEN [q.st EXCEPT !.y = Fx(E.y)] ELSE q.st
+                /\ H' = h2 /\ M' = m2
          /\ t' = t + 1
          /\ UNCHANGED <<subj, par, live>>
          /\ Step
